@@ -78,6 +78,9 @@ def main():
     lay["Key_q_AltGr"] = ""                      # empty assignment
     lay.pop("Key_w_AltGr", None)                 # missing assignment
     lay["Key_Period_AltGr"] = "."                # an ASCII full stop (Probhat's own '.' key emits a danda)
+    # the punctuation characters of the statement's classes that Probhat has no key for (C12 class sweep)
+    for key, ch in zip("bcefgijlmn", "`$\\|><[]{}"):
+        lay["Key_%s_AltGr" % key] = ch
     lay["Num5"] = ""                             # empty number-pad assignment
     lay.pop("Num6", None)                        # missing number-pad assignment
     synth = {"info": prob.get("info", {}), "layout": lay}
